@@ -97,19 +97,21 @@ def witness_c12c():
 
 
 def witness_c12d(ctx):
-    """known finding C12-d: two ADJACENT equal azimuths (one direction measured twice) are merged into one block by the reader, which starts a new
-    azimuth only where the label changes -- runs first on every run; the shared history generator keeps equal azimuths apart"""
+    """corpus: witness of repaired defect C12-d -- two ADJACENT equal azimuths (one direction measured twice) were merged into one block by the reader,
+    which started a new azimuth only where the label changed -- runs first on every run (the shared history generator produces such lists too)"""
     import hvsrpy
     freq = np.geomspace(0.4, 17.0, 24)
     wr = np.random.default_rng(124)
     rows = [hvgen.gen_curve_set(wr, freq, 3, outliers=False) for _ in range(2)]
     m = Mirror.az(1, freq, rows, [15.0, 15.0])
+    m.obj.meta["processing_method"] = "azimuthal"
     fname = os.path.join(WORK, "c12_witness_d.csv")
     try:
         hvsrpy.write_hvsr_object_to_file(m.obj, fname)
         back = hvsrpy.read_hvsr_object_from_file(fname)
         n_back = len(back.hvsrs)
         bad = [] if n_back == 2 and [len(x.amplitude) for x in back.hvsrs] == [3, 3] and list(back.azimuths) == [15.0, 15.0] else ["n_azimuths"]
+        bad += hvgen.cmp_state(hvgen.impl_state(m.obj), hvgen.impl_state(back)) if not bad else []
         err = None
     except Exception as e:     # noqa: a reader that fails on the merged block is the same finding
         n_back, bad, err = None, ["n_azimuths"], f"{type(e).__name__}: {e}"[:120]
